@@ -73,3 +73,21 @@ Theorem live_link_overwrite_before_84a8551 :
   let r := writer_7df01dd (wit_env_link false) s 4 true 1070004 292 in
   obs (s 9) = Some (55, 292) /\ snd r = Ok /\ obs (fst r 9) = Some (1070004, 292).
 Proof. vm_compute. repeat split; reflexivity. Qed.
+
+(* ---- code BEFORE fix 5a15038 (finding F-NONREGULAR-TARGET, status fixed) ------------------------------------------------------
+   The gate of 84a8551 refused directories and links only (`not is_dir() and not is_symlink()`): a character device at a target
+   was chmod-ed and opened for writing, swallowed the text, and the run reported success with the target still a device (a FIFO
+   made nnvg block forever: not modelled).  With that gate written out by hand, on the primitives of the current model: *)
+Definition gate_84a8551 (e : env) (s : fs) (p : path) (allow : bool) : fs * result :=
+  if fs_exists_at e s (resolve e p) || is_symlink e p
+  then (if allow && (negb (fs_is_dir s (resolve e p)) && negb (is_symlink e p))
+        then fs_chmod e s (resolve e p) (N.lor (fs_st_mode s (resolve e p)) 144) else (s, Err EExists))
+  else (s, Ok).
+
+Theorem special_at_target_before_5a15038 :
+  let e := wit_env_special false in
+  let r := bind (gate_84a8551 e wit_special_fs 4 true) (fun s1 =>
+           bind (mkdirs e None (ancestors e 4) s1) (fun s2 =>
+           bind (fs_write e s2 (resolve e 4) 1070004) (fun s3 => fs_chmod e s3 (resolve e 4) 292))) in
+  special e 4 = true /\ snd r = Ok /\ obs (fst r 4) = Some (0, 292).     (* success, no generated text at the target *)
+Proof. vm_compute. repeat split; reflexivity. Qed.
